@@ -13,6 +13,8 @@ package main
 //	6  ... answers a complete exchange with eight genuine cookies that names a
 //	   server which is not an IP address
 //	7  ... a complete exchange with 1..7 genuine cookies
+//	9  passes the stream on but holds the server's side back after some bytes until released;
+//	   connections after it are served normally
 //	8  ... a complete exchange with eight cookies of another length (100..1000 bytes; nothing
 //	   the server could open)
 
@@ -30,11 +32,13 @@ import (
 )
 
 type keFront struct {
-	e    *env
-	port int    // the NTP port its complete exchanges name
-	ip   net.IP // the address it listens on; the real NTS-KE server of that address is behind it
-	mode atomic.Int64
-	arg  atomic.Int64
+	e       *env
+	conns   atomic.Int64  // connections accepted so far
+	release chan struct{} // mode 9: closed to let the held connection go on
+	port    int           // the NTP port its complete exchanges name
+	ip      net.IP        // the address it listens on; the real NTS-KE server of that address is behind it
+	mode    atomic.Int64
+	arg     atomic.Int64
 }
 
 func newKeFront(e *env, ip net.IP, port int) *keFront {
@@ -49,7 +53,12 @@ func newKeFront(e *env, ip net.IP, port int) *keFront {
 			if err != nil {
 				fatal("front accept: %v", err)
 			}
-			go f.serve(c, f.mode.Load(), f.arg.Load())
+			m := f.mode.Load()
+			if m == 9 {
+				f.mode.Store(0) // only this connection is held back
+			}
+			f.conns.Add(1)
+			go f.serve(c, m, f.arg.Load())
 		}
 	}()
 	return f
@@ -58,7 +67,7 @@ func newKeFront(e *env, ip net.IP, port int) *keFront {
 func (f *keFront) serve(c net.Conn, mode, arg int64) {
 	defer c.Close()
 	switch mode {
-	case 0, 2:
+	case 0, 2, 9:
 		up, err := net.DialTimeout("tcp4", net.JoinHostPort(f.ip.String(), strconv.Itoa(ntske.ServerPortIP)), waitLong)
 		if err != nil {
 			return
@@ -74,6 +83,13 @@ func (f *keFront) serve(c net.Conn, mode, arg int64) {
 		}
 		cuts := []int64{1, 100, 700, 1300, 1500, 1700, 2000, 2300, 2600}
 		io.CopyN(c, up, cuts[int(uint64(arg)%uint64(len(cuts)))])
+		if mode == 9 {
+			select {
+			case <-f.release:
+			case <-time.After(waitLong):
+			}
+			io.Copy(c, up)
+		}
 	case 1:
 		return
 	default:
